@@ -24,8 +24,8 @@ from engine.reach import reaching
 PID = 'C20'
 
 META = {
-    'technique': 'conditional constant propagation under switch = off (per function, with call-site feasibility and cache-field resolution) + dependence analysis (structured control dependence + value dependence, least fixpoint over type-resolved fields, call-site intersection) from each configuration switch to every store of the enabling signal; who-writes check for call-argument signals',
-    'text': 'Decides, for each user-visible tool switch (loop filter, CDEF, restoration, palette / screen content, intra block copy, global motion, warped motion, OBMC, filter intra, inter-intra compound, super-resolution, tile rows / columns), that no assignment of the sequence- or picture-level signal that turns the tool on is made without consulting the switch - on every path and for every preset, because it is a property of every store. For the on/off tools it also decides the polarity: with the switch set to its disabling value every store that can still execute writes the off value (conditional constant propagation under that assumption). The requested tile rows / columns are additionally checked to be limited by the limits of their own dimension (row derivation = transposed column derivation). It does not decide that block-level mode decision honours the picture-level signal nor what the entropy coder finally writes.',
+    'technique': 'conditional constant propagation under switch = off (per function, with call-site feasibility and cache-field resolution) + dependence analysis (structured control dependence + value dependence, least fixpoint over type-resolved fields, call-site intersection) from each configuration switch to every store of the enabling signal; who-writes check for call-argument signals; the same constant propagation with the enabling signal at its off value proves the search / apply calls of the in-loop filters unreachable (C20.APPLY)',
+    'text': 'Decides, for each user-visible tool switch (loop filter, CDEF, restoration, palette / screen content, intra block copy, global motion, warped motion, OBMC, filter intra, inter-intra compound, super-resolution, tile rows / columns), that no assignment of the sequence- or picture-level signal that turns the tool on is made without consulting the switch - on every path and for every preset, because it is a property of every store. For the on/off tools it also decides the polarity: with the switch set to its disabling value every store that can still execute writes the off value (conditional constant propagation under that assumption). The requested tile rows / columns are additionally checked to be limited by the limits of their own dimension (row derivation = transposed column derivation). It does not decide that block-level mode decision honours the picture-level signal nor what the entropy coder finally writes. Also decided for the three in-loop filters: with the enabling signal at its off value every call that searches the filter parameters or applies the filter to the reconstruction is unreachable in pipeline code (a guard that mentions the signal without implying that it is on is reported).',
     'note': 'CONFIG = EbSvtAv1EncConfiguration (scs->static_config); a signal whose stores are all dependent becomes a source for the signals derived from it',
     'ref': 'DESIGN.md section 5 C20',
 }
@@ -324,6 +324,7 @@ def run(P, rep, tier):
            'GmControls.enabled is written by %s' % writers)
     rep.floor('C20.ARG', 2)
     run_off(P, rep, C, live, stores, csites)
+    run_apply(P, rep, C)
     run_tilesym(P, rep, C, live, stores)
 
 
@@ -671,3 +672,42 @@ def run_tilesym(P, rep, C, live, stores):
            ('row derivation = column derivation with rows<->cols: %s' % got[-1][:120]) if want == got else
            ('the row derivation is not the transposed column derivation: expected %s, found %s' % (want, got)))
     rep.floor('C20.TILESYM', 1)
+
+
+# ------------------------------------------------------------------------------------------------------------------------
+# C20.APPLY - the enabling signal is honoured where the tool is applied.  OFF shows that the signal carries the off value when the
+# user says off; APPLY shows that with the signal at its off value no call that searches the tool's parameters or applies it to the
+# reconstruction stays feasible in pipeline code (conditional constant propagation of the calling function under signal == off;
+# the call's block must be unreachable).  A guard that mentions the signal but does not imply "signal != off" is reported.
+APPLY_TABLE = [
+    ('PictureParentControlSet.loop_filter_mode', 0, ('svt_av1_loop_filter_frame', 'svt_av1_pick_filter_level', 'loop_filter_sb')),
+    ('PictureParentControlSet.cdef_level', 0, ('svt_av1_cdef_frame', 'av1_cdef_frame16bit', 'finish_cdef_search', 'cdef_seg_search', 'cdef_seg_search16bit')),
+    ('SeqHeader.enable_restoration', 0, ('svt_av1_loop_restoration_filter_frame', 'restoration_seg_search', 'rest_finish_search', 'svt_av1_pick_filter_restoration')),
+]
+
+
+def run_apply(P, rep, C):
+    n = 0
+    for sig, offv, calls in APPLY_TABLE:
+        env = {sig: offv}
+        for f in P.fns:
+            if f.lib != 'Encoder' or f.nocfg or f not in C.runtime:
+                continue
+            sites = [(ev, nm) for ev, nm in f.calls(calls)]
+            if not sites:
+                continue
+            # only functions in which the signal is visible: a helper that is itself only called under the guard is judged at its caller
+            if not any(x[0] == 'm' and x[1] == sig for ev in f.events() if ev.get('e') is not None for x in subexprs(ev['e'])) and \
+               not any(c is not None and any(x[0] == 'm' and x[1] == sig for x in subexprs(c)) for par, k, c, l in f.ctl):
+                continue
+            ins, tr = sccp(f, env)
+            for ev, nm in sites:
+                n += 1
+                ok = ev['b'] not in ins
+                guards = [pstr(strip(c))[:110] for k, c, l in f.ctl_chain(ev) if c is not None and k in ('if', 'else') and any(x[0] == 'm' and x[1] == sig for x in subexprs(c))]
+                rep.ob('C20.APPLY', '%s/%s@%d' % (f.name, nm, ev['l']), ok, f.loc(ev),
+                       ('%s is unreachable in %s when %s == %d' % (nm, f.name, sig.split('.')[1], offv)) if ok else
+                       ('%s stays reachable in %s with %s == %d%s: the tool is searched / applied although the configuration switched it off, and the frame header then carries its parameters' %
+                        (nm, f.name, sig.split('.')[1], offv, (' (guard: %s)' % guards[0]) if guards else ' (no guard on the signal)')))
+    rep.analysed['apply_sites'] = n
+    rep.floor('C20.APPLY', 4)
